@@ -363,11 +363,13 @@ impl<'b, T: El + PartialEq, S: SEl> Env<'b, T, S> {
             }
             "try_reserve" => match self.bv[v].as_mut().unwrap().try_reserve(op.n) {
                 Ok(()) => "ok",
-                Err(_) => "err",
+                Err(bumpalo::collections::CollectionAllocErr::CapacityOverflow) => "err:cap",
+                Err(bumpalo::collections::CollectionAllocErr::AllocErr) => "err:alloc",
             },
             "try_reserve_exact" => match self.bv[v].as_mut().unwrap().try_reserve_exact(op.n) {
                 Ok(()) => "ok",
-                Err(_) => "err",
+                Err(bumpalo::collections::CollectionAllocErr::CapacityOverflow) => "err:cap",
+                Err(bumpalo::collections::CollectionAllocErr::AllocErr) => "err:alloc",
             },
             "shrink" => {
                 if self.tick % 2 == 1 {
@@ -634,12 +636,13 @@ impl<'b, T: El + PartialEq, S: SEl> Env<'b, T, S> {
             "try_reserve" | "try_reserve_exact" => {
                 // `1 << 44` elements: the arena refuses; the reference must not really try
                 if std::mem::size_of::<S>() != 0 && op.n == 1 << 44 {
-                    "err"
+                    "err:alloc"
                 } else {
                     let r = if name == "try_reserve" { self.sv[v].as_mut().unwrap().try_reserve(op.n) } else { self.sv[v].as_mut().unwrap().try_reserve_exact(op.n) };
                     match r {
                         Ok(()) => "ok",
-                        Err(_) => "err",
+                        // the kind is only visible through `Debug` on stable
+                        Err(e) => if format!("{:?}", e).contains("CapacityOverflow") { "err:cap" } else { "err:alloc" },
                     }
                 }
             }
@@ -881,7 +884,7 @@ pub fn run_plan<T: El + PartialEq, S: SEl>(plan: &mut Plan, gen: Option<(Profile
             if fired {
                 env.panic_fired_in_plan = true;
             }
-            alloc_refused = alloc_refused || (crate_tag == "err" && op.n == 1 << 44);
+            alloc_refused = alloc_refused || (crate_tag.starts_with("err") && op.n == 1 << 44);
             // what the caller now holds
             let moved_ids: Vec<u64> = ret.iter().map(|e| e.id()).collect();
             let ret_vals = vals_of(&ret);
@@ -965,7 +968,7 @@ pub fn run_plan<T: El + PartialEq, S: SEl>(plan: &mut Plan, gen: Option<(Profile
                     None => true,
                     Some(need) => esz > 0 && need.checked_mul(esz).map_or(true, |b| b > isize::MAX as usize),
                 };
-                if impossible && !panicked && crate_tag != "err" {
+                if impossible && !panicked && !crate_tag.starts_with("err") {
                     fail("C19", "unrepresentable-capacity-accepted", format!("{} len={} n={} elem-size={} -> {}", name, base, op.n, esz, crate_tag));
                 }
             }
